@@ -89,3 +89,94 @@ PROPS["C20"] = dict(
                   "thread_local!, Cell and AtomicBool semantics are modelled; weak-memory behaviours without synchronisation are outside the model"],
     assumptions=["each public function touches the shared atomic at most once, so operation-granularity interleavings are complete for the SC reading"],
 )
+
+# ----------------------------------------------------------------------------- chess core
+POS_RULE = ("positions = the 35-position corpus (perft suites, en-passant pins/shields, castling, promotion races, mates, 100-ply clock) "
+            "+ seeded legal playouts from corpus positions with move choice biased to captures, checks, double steps, en passant, castling and "
+            "promotions + sparse random placements rendered as FEN (kings, up to 10/28 men, consistent rights and en-passant markers) filtered by the "
+            "implementation's parser and played on; distinct = distinct observation lines; the DIST record in `distribution` counts checks, double "
+            "checks, pins, markers, available e.p. captures/castles/promotions, mates, stalemates")
+CORE_TRUST = ["model/Board.v, MoveGen.v, Apply.v, Fen.v are hand transcriptions of chess-movegen/src/{lib,raw,castle_rights,iter,iter/pieces,fen}.rs; "
+              "table accessors are replaced in the model by the coordinate definitions they are proved equal to (C08, C09)",
+              "spec/Rules.v (mailbox rules of chess, no tables/bitboards) is the reference; positions travel as FEN text assembled by the harness "
+              "from raw().get / turn() / clocks and the Debug fields (not through the Display under test)"]
+
+
+def pos_jobs(ctx, nq, nt, moves, checked, lgq, lgt, families=True):
+    jobs = [dict(sub=["positions", q(ctx, nq, nt), moves, checked, q(ctx, lgq, lgt)], shards=16, timeout=3000)]
+    if families:
+        jobs.append(dict(sub=["epfamily", q(ctx, 40, 1)], shards=q(ctx, 1, 8), timeout=3000))
+        if ctx.tier == "thorough":
+            jobs.append(dict(sub=["castlefamily"], timeout=3000))
+    return jobs
+
+
+PROPS["C01"] = dict(
+    jobs=lambda ctx: pos_jobs(ctx, 1300, 60000, 0, 1, 40, 40),
+    relevant=r"legal-moves|len/size_hint|model:len|is_legal|LG|accept exactly legal|position-rejected|harness-crash",
+    rule=POS_RULE + "; per position: legals() as a sorted set and its len/size_hint/is_empty against Rules.legal_moves, is_legal on random / near-miss / "
+         "legal triples, and on every 40th position the full set {m | is_legal m} over all 20480 triples; systematic en-passant family "
+         "(own king x capturer x double-stepped pawn x one enemy slider; quick: 1/40 sample, thorough: all) and castling family (thorough)",
+    trusted_base=CORE_TRUST,
+    open=["C01_movegen_exact (model legals = Rules.legal_moves for every reachable board) is NOT proved in Coq; it is decided on every generated "
+          "position by the correspondence impl = model and the spec monitor impl = Rules"],
+)
+PROPS["C02"] = dict(
+    jobs=lambda ctx: pos_jobs(ctx, 500, 20000, 1, 1, 0, 0, families=False),
+    relevant=r"successor = rules make|successor fields|legal-move-accepted|successor-is-acceptable|accept exactly legal|untouched|move_new/move_mut|apply = fresh|successor acceptable|successor present|position-rejected|harness-crash",
+    rule=POS_RULE + "; per position EVERY legal move is applied through move_new, move_mut and move_into and the successor compared field by field "
+         "with Rules.make; 6 arbitrary/near-miss/legal (from,to,promotion) triples per position offered to the checked operations with the board "
+         "compared (Debug text) before and after; clocks below 9999",
+    trusted_base=CORE_TRUST,
+    open=["C02_apply_exact (abs (apply b m) = Rules.make (abs b) m) is NOT proved in Coq; decided on every generated (position, legal move)"],
+)
+PROPS["C03"] = dict(
+    jobs=lambda ctx: pos_jobs(ctx, 500, 20000, 1, 0, 0, 0, families=False),
+    relevant=r"in_check|state|indistinguishable|pinned|checkers|position-rejected|harness-crash",
+    rule=POS_RULE + "; per position in_check() and state() against Rules.in_check / classify, the incrementally maintained pinned/checkers against the "
+         "from-scratch ones, and {legal moves, check, hash, text, Debug rendering, ==} of the moved board against to_string().parse(); per legal move "
+         "the successor's derived state against from-scratch",
+    trusted_base=CORE_TRUST,
+    open=["C03_fresh (a moved board equals the re-parsed one as a record) is NOT proved in Coq; decided on every generated position and successor"],
+)
+PROPS["C04"] = dict(
+    tables=["zobrist"],
+    jobs=lambda ctx: [dict(sub=["zobrist"])] + pos_jobs(ctx, 500, 20000, 1, 0, 0, 0, families=False),
+    relevant=r"hash|zobrist|position-rejected|harness-crash",
+    rule="all 794 keys through the four public accessors against the regenerated table; " + POS_RULE + "; per position and per successor of every "
+         "legal move the implementation's zobrist() and piece hash against the hash of the same position built from scratch by the model parser "
+         "(so boards with equal text have equal hash whatever move order produced them)",
+    trusted_base=CORE_TRUST + ["translator for zobrist.rs, validated through zobrist()/castle_rights_zobrist()/en_passant_zobrist()/turn_zobrist()"],
+    open=["C04_incremental_statement (piece hash maintained by apply = from-scratch hash) is NOT proved in Coq; decided on every generated successor"],
+)
+PROPS["C05"] = dict(
+    jobs=lambda ctx: pos_jobs(ctx, 1300, 60000, 0, 0, 0, 0, families=False) + [dict(sub=["fen", q(ctx, 4000, 200000), q(ctx, 1, 4)], shards=q(ctx, 2, 16)),
+                                                                              dict(sub=["builder", q(ctx, 3000, 200000)], shards=q(ctx, 1, 8))],
+    relevant=r"fen-writer|indistinguishable|model:result|builder = parser|build result|place flags|position-rejected|harness-crash",
+    rule=POS_RULE + "; per board: to_string() byte for byte against the writer model, to_string().parse() equal in legal moves/check/hash/text/Debug/==; "
+         "the parser on writer output, structured random FEN text, every single-byte edit of seed FENs and random bytes; builder sequences compared with "
+         "the parser on the same position (all fields incl. hash and derived state)",
+    trusted_base=CORE_TRUST,
+    open=["C05_write_parse: the metadata tail (side, rights, marker, clocks <= 9999) is proved to round-trip (FenFacts.parse_tail_write_tail); the placement "
+          "half (run-length piece field) and C05_parse_write are NOT proved in Coq; decided on every generated board"],
+)
+PROPS["C06"] = dict(
+    jobs=lambda ctx: [dict(sub=["fen", q(ctx, 12000, 600000), q(ctx, 3, 12)], shards=q(ctx, 4, 16)),
+                      dict(sub=["builder", q(ctx, 6000, 400000)], shards=q(ctx, 1, 8))],
+    relevant=r".",
+    rule="three byte streams through fen::parse_fen: (1) writer output of reachable boards + structured random FEN text, (2) EVERY single-byte edit "
+         "(delete, duplicate, replace by each of 256 bytes, insert of boundary bytes, truncation) of seed FENs + random multi-edits, (3) random bytes of "
+         "length 0..120; result compared as Ok(all fields incl. hash, pins, checkers) / Err(kind + payload); every accepted board is checked with the "
+         "rules-level `playable` predicate and must generate moves without panic; builder op sequences likewise; `distribution` = histogram of error kinds",
+    trusted_base=CORE_TRUST,
+    open=["C06_playable_statement (validate = None implies Rules.playable) is NOT proved in Coq; evaluated on every accepted board (spec monitor)"],
+)
+PROPS["C17"] = dict(
+    tables=["book"],
+    jobs=lambda ctx: [dict(sub=["book"], timeout=1500)],
+    exhaustive=True,
+    rule="complete traversal of INITIAL_BOOOK_MOVES through the public iterator (29036 nodes, depth 8): every root-to-node path replayed on "
+         "Board::standard() with move_mut and judged legal by the extracted Rules spec; node count and depth compared with the in-kernel sweep",
+    trusted_base=["translator for lichess_book.rs (declared BOOK_SIZE checked against the literals), validated by the full traversal through the public iterator",
+                  "model/Book.v transcribes BookMovesIter::next incl. checked_sub; legality by spec/Rules.v"],
+)
